@@ -37,7 +37,8 @@ def maybeParseHash (s : Bytes) : Option Bytes :=
   | none => none
   | some vs => some (natBE 20 (vs.foldl (fun acc v => acc * 32 + v) 0))
 
-/-- `hash.Parse`: panics (d.PanicIfError) when the string is not a well-formed hash. -/
+/-- `hash.Parse`: panics (d.PanicIfError) when the string is not a well-formed hash.  (No longer
+called by the manifest parsers since the root-hash repair; kept for the record.) -/
 def parseHash (s : Bytes) : R Bytes :=
   match maybeParseHash s with
   | some h => .ok h
@@ -83,8 +84,8 @@ def parseV5 (m : Bytes) : R Contents := do
   let specs ← parseSpecs (← strsFrom slices (prefixLen - 1))
   let some lock := maybeParseHash (← strAt slices 1) | throw .badHash
   let some gc := maybeParseHash (← strAt slices 3) | throw .badHash
+  let some root := maybeParseHash (← strAt slices 2) | throw .badHash   -- (repaired: was hash.Parse, which panics)
   let nbf ← strAt slices 0
-  let root ← parseHash (← strAt slices 2)               -- hash.Parse: PANICS on a malformed root
   return { vers := 5, nbf := nbf, lock := lock, root := root, gcGen := gc, specs := specs }
 
 def parseV4 (m : Bytes) : R Contents := do
@@ -92,8 +93,8 @@ def parseV4 (m : Bytes) : R Contents := do
   if slices.length < 3 ∨ slices.length % 2 = 0 then throw .corruptManifest
   let specs ← parseSpecs (← strsFrom slices 3)
   let some lock := maybeParseHash (← strAt slices 1) | throw .badHash
+  let some root := maybeParseHash (← strAt slices 2) | throw .badHash   -- (repaired: was hash.Parse, which panics)
   let nbf ← strAt slices 0
-  let root ← parseHash (← strAt slices 2)               -- hash.Parse: PANICS on a malformed root
   return { vers := 4, nbf := nbf, lock := lock, root := root, gcGen := List.replicate 20 0, specs := specs }
 
 /-- the version-prefix loop of `parseManifest`: at most 8 one-byte reads up to the first ':' -/
@@ -223,34 +224,51 @@ structure Batch where
   lookups : List Lookup
   deriving Repr
 
+/-- `readIndexLookup` after `io.ReadFull` filled the three fixed arrays (28 bytes available) -/
+def readLookup (r1 : Bytes) : R Lookup := do
+  let a ← goSlice r1 0 0 16
+  let off ← be64 (← goSlice r1 0 16 24)
+  let len ← be32 (← goSlice r1 0 24 28)
+  return { addr16 := a, offset := off, length := len }
+
+/-- `readIndexMeta` after `io.ReadFull` filled the four fixed arrays (40 bytes available) -/
+def readMeta (r1 : Bytes) (crc : UInt32) (batch : List Lookup) : R Batch := do
+  let st ← be64 (← goSlice r1 0 0 8)
+  let en ← be64 (← goSlice r1 0 8 16)
+  let ck ← be32 (← goSlice r1 0 16 20)
+  let root ← goSlice r1 0 20 40
+  return { start := st, stop := en, checksum := ck, computed := crc, latest := root, lookups := batch.reverse }
+
 /-- `processIndexRecords(rd, sz, cb)` with a callback that accepts every batch.
-Returns (batches, off, malformed?).  All reads are `io.ReadFull` on a stream: a short read is the
-benign end of a crash-truncated index. -/
-def loop : Nat → Bytes → Nat → Nat → Nat → UInt32 → List Lookup → List Batch → List Batch × Nat × Bool
-  | 0, _, _, off, _, _, _, acc => (acc.reverse, off, false)
+Returns (batches, off, malformed?).  All reads are `io.ReadFull` on a stream into fixed-size
+arrays: a short read is the benign end of a crash-truncated index, and only then are the arrays
+decoded (`readLookup` / `readMeta` are written with the checked slice primitives so that the
+no-panic theorem is a statement about the length guards, not a consequence of the types). -/
+def loop : Nat → Bytes → Nat → Nat → Nat → UInt32 → List Lookup → List Batch → R (List Batch × Nat × Bool)
+  | 0, _, _, off, _, _, _, acc => .ok (acc.reverse, off, false)
   | fuel + 1, rest, sz, off, batchOff, crc, batch, acc =>
     if off < sz then
       match rest with
-      | [] => (acc.reverse, off, false)                                   -- ReadByte: io.EOF
+      | [] => .ok (acc.reverse, off, false)                               -- ReadByte: io.EOF
       | tag :: r1 =>
         if tag == 0 then
-          if r1.length < lookupSz then (acc.reverse, off, false)          -- ErrUnexpectedEOF / EOF
+          if r1.length < lookupSz then .ok (acc.reverse, off, false)      -- ErrUnexpectedEOF / EOF
           else
-            let a := r1.take 16
-            let l : Lookup := { addr16 := a, offset := beNat ((r1.drop 16).take 8), length := beNat ((r1.drop 24).take 4) }
-            loop fuel (r1.drop lookupSz) sz off (batchOff + 1 + lookupSz)
-              ((a.foldl crcByte (crc ^^^ 0xFFFFFFFF)) ^^^ 0xFFFFFFFF) (l :: batch) acc
+            match readLookup r1 with
+            | .error e => .error e
+            | .ok l =>
+              loop fuel (r1.drop lookupSz) sz off (batchOff + 1 + lookupSz)
+                ((l.addr16.foldl crcByte (crc ^^^ 0xFFFFFFFF)) ^^^ 0xFFFFFFFF) (l :: batch) acc
         else if tag == 1 then
-          if r1.length < lookupMetaSz then (acc.reverse, off, false)
+          if r1.length < lookupMetaSz then .ok (acc.reverse, off, false)
           else
-            let b : Batch := { start := beNat (r1.take 8), stop := beNat ((r1.drop 8).take 8),
-                               checksum := beNat ((r1.drop 16).take 4), computed := crc,
-                               latest := (r1.drop 20).take 20, lookups := batch.reverse }
-            loop fuel (r1.drop lookupMetaSz) sz (off + (batchOff + 1) + lookupMetaSz) 0 0 [] (b :: acc)
-        else (acc.reverse, off, true)                                     -- ErrMalformedIndex
-    else (acc.reverse, off, false)
+            match readMeta r1 crc batch with
+            | .error e => .error e
+            | .ok b => loop fuel (r1.drop lookupMetaSz) sz (off + (batchOff + 1) + lookupMetaSz) 0 0 [] (b :: acc)
+        else .ok (acc.reverse, off, true)                                 -- ErrMalformedIndex
+    else .ok (acc.reverse, off, false)
 
-def process (data : Bytes) : List Batch × Nat × Bool :=
+def process (data : Bytes) : R (List Batch × Nat × Bool) :=
   loop (data.length + 1) data data.length 0 0 0 [] []
 
 end JIndex
